@@ -488,7 +488,11 @@ int32_t jls_core_rd_chunk_end(struct jls_core_s * self) {
         if (jls_bk_fread(backend, (uint8_t *) data, (unsigned) length)) {
             return JLS_ERROR_EMPTY;
         }
-        for (int64_t i = (length - sizeof(struct jls_chunk_header_s)) / sizeof(uint64_t); i > 0; --i) {
+        // every 8-byte slot of the window, including its first one: the next window ends before it
+        for (int64_t i = (length - (int64_t) sizeof(struct jls_chunk_header_s)) / (int64_t) sizeof(uint64_t); i >= 0; --i) {
+            if (0 == (pos + i)) {
+                break;  // offset 0 holds the file header
+            }
             h = (struct jls_chunk_header_s *) &data[i];
             uint32_t crc32 = jls_crc32c_hdr(h);
             if (crc32 == h->crc32) {
